@@ -1210,6 +1210,7 @@ def run(ctx):
                        'affine, B-spline / NURBS quarter annulus, twisted box, scaled square/cube, thin annulus; hierarchical: '
                        'HB/THB spaces from 1-2 refinement steps; malformed: wrong array shape, repeated node, refusals')
     ctx.cov['input_distribution'] = dist
+    ctx.cov['exhaustive'] = False
     if icases:
         ctx.sample({'op': 'interp', 'kvs': replay_of(icases[8 % len(icases)])['kvs'], 'dk': icases[8 % len(icases)]['dk'],
                     'impl_x': [float.fromhex(h) for h in ires[8 % len(icases)].get('x', [])][:6]})
